@@ -48,8 +48,10 @@ def _dump(strategy):
     rec = {"tag": strategy.tag, "pid": os.getpid(), "index": [str(i) for i in df.index], "columns": [str(c) for c in df.columns], "rows": rows,
            "actions": [[str(a.timestamp), repr(a)] for a in strategy.actions],
            "wallet": {k.name: str(v.balance) for k, v in strategy.broker.assets.items()}, "positions": pos}
-    with open(os.path.join(out_dir, f"{strategy.tag}.json"), "w") as f:
+    tmp = os.path.join(out_dir, f".{strategy.tag}.{os.getpid()}.tmp")
+    with open(tmp, "w") as f:
         json.dump(rec, f)
+    os.replace(tmp, os.path.join(out_dir, f"{strategy.tag}.json"))
 
 
 def _base():
@@ -355,11 +357,19 @@ def make_setup(mix):
 
 # ---- controlled pool ------------------------------------------------------------------------------------------------------------------
 class _Result:
+    """An AsyncResult of the controlled pool. Waiting for it is what guarantees that its units have run: leaving the `with Pool` block terminates the
+    pool, and a task nobody waited for may be killed before it has done anything (the schedule in which it never ran is a legal one)."""
+
+    def __init__(self, pool=None, units=()):
+        self.pool, self.unit_ids = pool, tuple(units)
+
     def wait(self, timeout=None):
+        if self.pool is not None:
+            self.pool.awaited.update(self.unit_ids)
         return None
 
     def get(self, timeout=None):
-        return None
+        return self.wait(timeout)
 
     def ready(self):
         return True
@@ -378,37 +388,44 @@ class ControlledPool:
     def __init__(self, processes=None, *a, **k):
         self.processes = processes
         self.units = []
+        self.awaited = set()
 
     def __enter__(self):
         return self
 
     def __exit__(self, *exc):
-        self._execute()
+        # Pool.__exit__ is terminate(): only what has been waited for is certain to have run
+        self._execute(only_awaited=True)
         return False
 
     def close(self):
-        self._execute()
+        pass
 
     def join(self):
-        pass
+        self.awaited.update(range(len(self.units)))  # close() + join() waits for every submitted task
+        self._execute(only_awaited=True)
 
     def terminate(self):
         pass
 
     def apply_async(self, func, args=(), kwds=None, callback=None, error_callback=None):
         self.units.append(pickle.dumps([(func, tuple(args), dict(kwds or {}))]))
-        return _Result()
+        return _Result(self, [len(self.units) - 1])
 
-    def _map_units(self, func, iterable, chunksize, star):
+    def _map_units(self, func, iterable, chunksize, star, blocking=False):
         items = list(iterable)
         if chunksize is None:
             chunksize, extra = divmod(len(items), (self.processes or 1) * 4)
             if extra:
                 chunksize += 1
         chunksize = max(chunksize, 1)
+        first = len(self.units)
         for i in range(0, len(items), chunksize):
             self.units.append(pickle.dumps([(func, tuple(x) if star else (x,), {}) for x in items[i:i + chunksize]]))
-        return _Result()
+        res = _Result(self, range(first, len(self.units)))
+        if blocking:
+            res.wait()
+        return res
 
     def starmap_async(self, func, iterable, chunksize=None, callback=None, error_callback=None):
         return self._map_units(func, iterable, chunksize, True)
@@ -417,16 +434,18 @@ class ControlledPool:
         return self._map_units(func, iterable, chunksize, False)
 
     def starmap(self, func, iterable, chunksize=None):
-        return self._map_units(func, iterable, chunksize, True)
+        return self._map_units(func, iterable, chunksize, True, blocking=True)
 
     def map(self, func, iterable, chunksize=None):
-        return self._map_units(func, iterable, chunksize, False)
+        return self._map_units(func, iterable, chunksize, False, blocking=True)
 
-    def _execute(self):
+    def _execute(self, only_awaited=False):
         units, self.units = self.units, []
         if not units:
             return
         ControlledPool.last_units = len(units)
+        if only_awaited:
+            units = [u if i in self.awaited else None for i, u in enumerate(units)]
         sched = ControlledPool.schedule or tuple(i % (self.processes or 1) for i in range(len(units)))
         sched = tuple(sched[i] if i < len(sched) else i % (self.processes or 1) for i in range(len(units)))
         for w in sorted(set(sched)):
@@ -435,7 +454,7 @@ class ControlledPool:
                 code = 0
                 try:
                     for i, u in enumerate(units):
-                        if sched[i] == w:
+                        if sched[i] == w and u is not None:  # None: never waited for, killed by the pool's termination before it ran
                             for func, args, kwds in pickle.loads(u):  # a fresh copy per unit, as the pool's task queue delivers it
                                 func(*args, **kwds)
                 except BaseException:  # noqa: BLE001
@@ -465,7 +484,10 @@ def read_results(d):
     out = {}
     for fn in sorted(os.listdir(d)):
         if fn.endswith(".json"):
-            r = json.load(open(os.path.join(d, fn)))
+            try:
+                r = json.load(open(os.path.join(d, fn)))
+            except ValueError:
+                continue  # a strategy that was cut off while writing its result has no result (reported as a missing result)
             out[r["tag"]] = r
     return out
 
